@@ -76,6 +76,7 @@ type UFunDecl struct {
 	Name string
 	Args []string
 	Ret  string
+	Pkg  string
 }
 
 type ContractSet struct {
@@ -308,7 +309,7 @@ func (cs *ContractSet) loadContractFile(path, pkgPath string) error {
 			if op < 0 || cp < op {
 				return fail(fmt.Errorf("ufun name(kinds) kind"))
 			}
-			u := &UFunDecl{Name: strings.TrimSpace(rest[:op]), Ret: strings.TrimSpace(rest[cp+1:])}
+			u := &UFunDecl{Name: strings.TrimSpace(rest[:op]), Ret: strings.TrimSpace(rest[cp+1:]), Pkg: pkgPath}
 			for _, a := range strings.Split(rest[op+1:cp], ",") {
 				if strings.TrimSpace(a) != "" {
 					u.Args = append(u.Args, strings.TrimSpace(a))
